@@ -305,6 +305,59 @@ def attack_builders():
     o = b.ref(_bid(Y), pa.make_delta(BASE, Y), name=n)
     b.ofs_to(o, pa.make_delta(Y, Y), name=_bid(Y))
     add("ref-ofs-mixed-cycle", b)
+    # rho shapes: a chain that leads INTO a cycle without being part of it (reading the tail entry never
+    # comes back to where it started, so comparing with the starting entry is not enough)
+    d = pa.make_delta(BASE, Y)
+
+    def cyc(tag, k):
+        return [hashlib.sha1(b"rho-%s-%d-%d" % (tag.encode(), k, i)).digest() for i in range(k)]
+
+    for k in (2, 3):
+        for via in ("ref", "ofs"):
+            for tail in (1, 2):
+                tag = "tail%d-%s-into-%d-cycle" % (tail, via, k)
+                names = cyc(tag, k)
+                b = NB()
+                b.full(pa.BLOB, B2)
+                offs = [b.ref(names[(i + 1) % k], d, name=names[i]) for i in range(k)]
+                prev_name, prev_off = names[0], offs[0]
+                for t in range(tail):
+                    tn = hashlib.sha1(b"%s-tail-%d" % (tag.encode(), t)).digest()
+                    prev_off = b.ref(prev_name, d, name=tn) if via == "ref" else b.ofs_to(prev_off, d, name=tn)
+                    prev_name = tn
+                add(tag, b)
+    # tail of length 2 with both kinds of link, into a cycle that itself mixes REF and OFS links
+    b = NB()
+    n0, n1, t0, t1 = cyc("mixed", 4)
+    o0 = b.ref(n1, d, name=n0)
+    b.ofs_to(o0, d, name=n1)  # n1 = OFS delta on n0, n0 = REF delta on n1
+    ot = b.ofs_to(o0, d, name=t0)
+    b.ref(t0, d, name=t1)
+    add("tail2-mixed-into-mixed-cycle", b)
+    # the tail entry comes FIRST in the pack (the walk moves forward through REF names, backwards through OFS)
+    b = NB()
+    n0, n1, t0 = cyc("tailfirst", 3)
+    b.ref(n0, d, name=t0)
+    b.ref(n1, d, name=n0)
+    b.ref(n0, d, name=n1)
+    add("tail-first-into-2-cycle", b)
+    # the cycle is reached only through the index: the tail's base is a name that appears nowhere in the pack
+    # as an entry's own name, the (forged) index simply maps it to the offset of a cycle member
+    b = NB()
+    n0, n1, t0, alias = cyc("alias", 4)
+    b.full(pa.BLOB, B2)
+    b.ref(n1, d, name=n0)
+    b.ref(n0, d, name=n1)
+    b.ref(alias, d, name=t0)
+    add("tail-into-2-cycle-through-index-alias", b, alias=[(alias, 1)], count=5)  # header count = index length, or Pack refuses the pair
+    # two tails sharing one cycle, one of them hanging off the *other* cycle member
+    b = NB()
+    n0, n1, t0, t1 = cyc("twotails", 4)
+    b.ref(n1, d, name=n0)
+    o1 = b.ref(n0, d, name=n1)
+    b.ref(n0, d, name=t0)
+    b.ofs_to(o1, d, name=t1)
+    add("two-tails-into-2-cycle", b)
     b = NB()
     b.full(pa.BLOB, B2)
     b.ref(BASE_ID[:19], pa.make_delta(BASE, Y), name=_bid(Y))  # 19-byte base name: the zlib stream is mis-aligned
@@ -406,9 +459,12 @@ def build_seeds(scratch):
                               "bounds": pa.boundaries(b.spans), "legit": 0}
     for name, b, kw in attack_builders():
         legit = kw.pop("legit", 0)
+        alias = kw.pop("alias", ())  # extra names the forged index gives to an entry: [(name, entry number)]
         data = b.finish(**kw)
-        S["streams"]["atk:" + name] = {"data": data, "spans": b.spans, "names": [HEX(n) for n in b.names], "entries": b.entries(),
-                                       "bounds": pa.boundaries(b.spans), "legit": legit}
+        ents = b.entries()
+        S["streams"]["atk:" + name] = {"data": data, "spans": b.spans, "names": [HEX(n) for n in b.names], "entries": ents,
+                                       "bounds": pa.boundaries(b.spans), "legit": legit,
+                                       "alias": [(n, ents[i][1], ents[i][2]) for n, i in alias]}
     _build_files(S, scratch, git, HarnessError)
     return S
 
@@ -472,10 +528,10 @@ def _build_files(S, scratch, git, HarnessError):
     for name, st in S["streams"].items():
         if not name.startswith("atk:") or len(st["data"]) > 4096:
             continue
-        ents = st["entries"]
+        ents = st["entries"] + st.get("alias", [])
         bn = "pack-" + hashlib.sha1(b"".join(sorted(e[0] for e in ents))).hexdigest()
         F["pair." + name] = {"dir": {"pack/%s.pack" % bn: st["data"], "pack/%s.idx" % bn: pa.idx_v2(ents, st["data"][-20:])},
-                             "base": "pack/" + bn, "targets": {}, "names": st["names"], "spans": {}}
+                             "base": "pack/" + bn, "targets": {}, "names": st["names"] + [HEX(e[0]) for e in st.get("alias", [])], "spans": {}}
     # ---- loose objects
     for kind, t, data in (("blob", pa.BLOB, B1), ("tree", pa.TREE, T1), ("commit", pa.COMMIT, C1), ("tag", pa.TAG, G1)):
         hexid = pa.obj_hex(t, data)
